@@ -8,7 +8,7 @@ def generate_and_drive(ctx):
     t = "quick" if q else "thorough"
     ctx.build_harness()
     cases = []
-    for cfg in ("Cenc_avc_%s.cfg" % t, "Cenc_hevc_%s.cfg" % t, "Cenc_audio.cfg", "Cenc_big.cfg"):
+    for cfg in ("Cenc_avc_%s.cfg" % t, "Cenc_hevc_%s.cfg" % t, "Cenc_audio.cfg", "Cenc_big.cfg", "Cenc_many.cfg"):
         r = ctx.tlc_ok("Cenc", cfg, workers=12, timeout=3000, heap="12g", stack="64m")
         ex = r.exported
         if cfg == "Cenc_big.cfg" and q:
